@@ -50,9 +50,11 @@ type c15Case struct {
 	// Disabled: protocols switched off in the configuration (<protocol>-enabled: false) of every instance of the case;
 	// at least one of ipfix / nf9 stays on
 	Disabled []string `json:"disabled,omitempty"`
+	// OtherFS: configuration, pid and cache files live on a file system other than the temporary directory's
+	OtherFS bool `json:"other_fs,omitempty"`
 }
 
-const c15Rule = "case = 1..3 stop/start cycles of the real collector binary (2..8 workers per protocol; in about 3 of 4 cases a generated subset of the four protocols is switched off by configuration, at least one of IPFIX / NetFlow v9 stays on; rawSocket sink and restful stats owned by the harness, per-instance pid and cache files) with 1..8 exporters on 127.0.0.x and ::1: " +
+const c15Rule = "case = 1..3 stop/start cycles of the real collector binary (2..8 workers per protocol; in about 3 of 4 cases a generated subset of the four protocols is switched off by configuration, at least one of IPFIX / NetFlow v9 stays on; rawSocket sink and restful stats owned by the harness, per-instance pid and cache files, in a quarter of the cases on a file system other than the temporary directory's) with 1..8 exporters on 127.0.0.x and ::1: " +
 	"per cycle new IPFIX / NetFlow v9 templates are announced (or all known ones redefined with a shorter definition, so that the next cache file is shorter than the one it replaces) and acknowledged (a data message using them reached the sink), sFlow/NetFlow v5 noise, a data burst, then SIGTERM or SIGINT after a drawn delay, " +
 	"optionally with traffic (data and announcements of fresh template ids) continuing through the shutdown window, or with single late datagrams 0.9..2.1 s after the signal following a quiet period; a final verification restart follows the last cycle; " +
 	"oracle per cycle = exit status 0 within 6 s of the signal, stderr free of panic / fatal error / concurrent map, both cache files exist, load and decode data for every acknowledged (exporter,id) to the reference decode, " +
@@ -73,6 +75,7 @@ func genC15(t *rapid.T) c15Case {
 		}
 	}
 	c.Workers = rapid.IntRange(2, 8).Draw(t, "workers")
+	c.OtherFS = rapid.IntRange(0, 3).Draw(t, "otherfs") == 0
 	// which protocols run is a valid configuration choice: a collector for one or two protocols must stop as cleanly
 	c.Disabled = rapid.SampledFrom([][]string{nil, nil, nil, {"ipfix"}, {"nf9"}, {"ipfix", "nf5"}, {"nf9", "sflow"}, {"sflow", "nf5"}, {"ipfix", "sflow", "nf5"}, {"nf9", "sflow", "nf5"}, {"nf5"}}).Draw(t, "disabled")
 	tplProtos := []string{}
@@ -207,6 +210,13 @@ func runC15(c *c15Case) (v verdict, sig string, err error) {
 		return v, "", fmt.Errorf("harness: %v", e)
 	}
 	defer os.RemoveAll(dir)
+	if c.OtherFS {
+		if d := otherFSDir("verif-c15-"); d != "" {
+			defer os.RemoveAll(d)
+			dir = d
+			v.label(true, "cache-files-on-another-file-system")
+		}
+	}
 	sink, e := newLineSink()
 	if e != nil {
 		return v, "", fmt.Errorf("harness: %v", e)
